@@ -177,6 +177,17 @@ class Report:
 
     # ----- finish
     def finish(self, level: str = "other", explanation: str = "") -> int:
+        if "--replay" in sys.argv:
+            # replay mode: the check has been re-run on the current tree; report whether the recorded
+            # violation (identified by the directory name = its canonical key) is found and reproduces again
+            target = os.path.basename(os.path.normpath(sys.argv[sys.argv.index("--replay") + 1]))
+            hits = [c for c in self.candidates if os.path.basename(os.path.normpath(c.replay_path or "")) == target]
+            for c in hits:
+                print(f"REPLAY property={self.pid} key={c.key!r} reproduced={c.reproduced}\n  {c.detail[:1500]}")
+            if not hits:
+                print(f"REPLAY property={self.pid}: the recorded violation {target!r} is not found on the current tree")
+            sys.stdout.flush()
+            return 1 if any(c.reproduced for c in hits) else 0
         violations = 0
         known_hits = []
         not_repro = []
